@@ -64,7 +64,9 @@ CHECKS = {
         text='Theorems over EVERY object graph (not only the transcribed ones): closes and I/O calls only ever raise closed flags and '
              'change nothing else; a close sets the object\'s own flag; a closed object, or a handle whose consulted inner object is '
              'closed, raises on data and position calls alike; closing a not-yet-closed reader closes everything it tracks '
-             '(one level; nested levels by re-application); reader close is idempotent; frame theorem: a close changes no object '
+             '(one level), and - for every acyclic close graph without flushing wrappers, by induction on the rank - EVERYTHING '
+             'below it at every depth, maintaining the proviso it needs (closed readers have closed sub-graphs); the side conditions '
+             'are decidable and evaluated on every scripted world (recorded in the evidence); reader close is idempotent; frame theorem: a close changes no object '
              'outside reach (self, owned-if-closefd, tracked) - containment and ownership.  The per-class graphs (12 reader '
              'types, handle kinds, wrappers) are a transcription tied to pyctr by an exhaustive configuration matrix: reader type '
              'x source kind x closefd x handle kind (nested readers\' handles, in-memory .code-decompressed, crypto wrappers) x '
